@@ -25,7 +25,10 @@ fn main() {
     for cfg in qcfgs {
         let label = cfg.label.clone();
         let model = match QfModel::new(cfg, false) {
-            Ok(m) => m,
+            Ok(mut m) => {
+                m.focus = "C12";
+                m
+            }
             Err(e) => {
                 run.violation(Viol { property: "C13".into(), signature: format!("{} classes", label), message: e.clone(), replay: json!({"config": label, "what": e}) });
                 continue;
@@ -37,7 +40,24 @@ fn main() {
         fi += failing_inserts;
         let lim = if thorough { 3 } else { 2 };
         let rights: Vec<qf::St> = if ex.states.len() <= if thorough { 3000 } else { 200 } { ex.states.clone() } else { ex.states.iter().filter(|s| s.set.count_ones() <= lim).cloned().collect() };
-        let (ps, pv) = if ex.viols.is_empty() { qf::pair_sweep(&model, &ex.states, &rights, false, n_threads()) } else { Default::default() };
+        let (mut ps, mut pv) = if ex.viols.is_empty() { qf::pair_sweep(&model, &ex.states, &rights, false, n_threads()) } else { Default::default() };
+        if ex.viols.is_empty() && rights.len() < ex.states.len() {
+            // converse sweep: left operands one or two short of capacity x every right operand
+            // (failing unions that walk big clusters, failing late)
+            let cap = model.cfg.capacity() as u32;
+            let near_all: Vec<&qf::St> = ex.states.iter().filter(|s| s.set.count_ones() + 2 >= cap && s.set.count_ones() < cap).collect();
+            let want = if thorough { 256 } else { 24 };
+            let stride = (near_all.len() / want).max(1);
+            let near: Vec<qf::St> = near_all.iter().step_by(stride).take(want).map(|s| (*s).clone()).collect();
+            let (ps2, pv2) = qf::pair_sweep(&model, &near, &ex.states, false, n_threads());
+            ps.pairs += ps2.pairs;
+            ps.ok += ps2.ok;
+            ps.failing += ps2.failing;
+            ps.fail_first += ps2.fail_first;
+            ps.fail_middle += ps2.fail_middle;
+            ps.fail_last += ps2.fail_last;
+            pv.extend(pv2);
+        }
         fu_first += ps.fail_first;
         fu_mid += ps.fail_middle;
         fu_last += ps.fail_last;
@@ -69,10 +89,13 @@ fn main() {
     let cres = par_map(&ccfgs, n_threads(), |cfg| {
         let label = cfg.label.clone();
         let cm = match CfModel::new(cfg.clone(), Mode::Classes, true) {
-            Ok(m) => m,
+            Ok(mut m) => {
+                m.focus = "C12";
+                m
+            }
             Err(e) => return Err((label, e)),
         };
-        let cex = cuckoo::explore(&cm, true, 3_000_000, 1);
+        let cex = cuckoo::explore(&cm, true, 400_000, 1);
         let mut ps = cuckoo::PairStats::default();
         let mut pv = vec![];
         // failing unions: all ordered pairs (bounded size of the right operand for the larger tables)
